@@ -349,6 +349,21 @@ func genFilterPieces(b *strings.Builder, vf *g.File, fd *ast.FuncDecl) error {
 	fmt.Fprintf(b, "\n/-- the fields of each lib.ConsensusValidator built from a filtered validator `v` -/\ndef memberFields : List (String × String) := [%s]\n", strings.Join(mf, ", "))
 	// the statement that builds `filtered`, with the filter literal abstracted
 	fs := strings.Replace(g.StmtText(filteredStmt), g.ExprText(filterLit), "<FILTER>", 1)
+	// the historical lookup: LoadCommittee(chain, h) = GetCommitteeMembers on a read-only state machine of height h
+	for _, fn := range []struct{ recv, name, lean string }{{"StateMachine", "LoadCommittee", "loadCommitteeSrc"}, {"StateMachine", "TimeMachine", "timeMachineSrc"}} {
+		lines, err := normFunc("fsm/state.go", fn.recv, fn.name)
+		if err != nil {
+			return err
+		}
+		var keep []string
+		for _, l := range lines {
+			if strings.Contains(l, "observeStage") || strings.Contains(l, "time.Now()") || strings.Contains(l, ".Observe(") {
+				continue // timing metrics
+			}
+			keep = append(keep, fmt.Sprintf("%q", l))
+		}
+		fmt.Fprintf(b, "\n/-- %s.%s, normalised (timing metrics dropped) -/\ndef %s : List String := [\n  %s\n]\n", fn.recv, fn.name, fn.lean, strings.Join(keep, ",\n  "))
+	}
 	fmt.Fprintf(b, "\n/-- normalised source of the statement that builds `filtered` (a fresh slice: the cached validator list is never filtered in place) -/\ndef filteredSrc : String := %q\n", fs)
 	return nil
 }
